@@ -174,6 +174,7 @@ type EpSpec struct {
 	MKI             string   `json:"mki,omitempty"`
 	ALPN            []string `json:"alpn,omitempty"`
 	Curves          []uint16 `json:"curves,omitempty"`
+	SigSchemes      []uint16 `json:"sigschemes,omitempty"` // signature_algorithms this endpoint offers / accepts
 	Store           string   `json:"store,omitempty"`
 	PadMode         int      `json:"pad,omitempty"` // 0 none, 1 constant 7, 2 to multiple of 16
 }
@@ -299,6 +300,13 @@ func (e EpSpec) Options(server bool, env *Env, name string) (copts []dtls.Client
 	}
 	if len(e.ALPN) > 0 {
 		add(dtls.WithSupportedProtocols(e.ALPN...))
+	}
+	if len(e.SigSchemes) > 0 {
+		ss := make([]tls.SignatureScheme, len(e.SigSchemes))
+		for i, x := range e.SigSchemes {
+			ss[i] = tls.SignatureScheme(x)
+		}
+		add(dtls.WithSignatureSchemes(ss...))
 	}
 	if len(e.Curves) > 0 {
 		cs := make([]dtlselliptic.Curve, len(e.Curves))
